@@ -508,6 +508,21 @@ def np_roll(eng, st, args, kwargs, line):
     return val(st, new_array(eng, st, [n], meta["kind"], meta.get("dtype"), z3.Lambda([j], el), "roll"))
 
 
+@model("numpy.atleast_1d")
+def np_atleast_1d(eng, st, args, kwargs, line):
+    """np.atleast_1d(a): a itself when it has a dimension, a one-element 1-d array for a 0-d value"""
+    a = args[0]
+    if isinstance(a, VArr):
+        if st.hmeta[a.obj].get("zerod_if") is None:
+            return val(st, a)
+        meta = st.hmeta[a.obj]
+        j = z3.Int("j!a1")
+        out = new_array(eng, st, [a.n], meta["kind"], meta.get("dtype"),
+                        z3.Lambda([j], z3.Select(st.heap[a.obj], eng.arr_index_term(a, j))), "atleast_1d")
+        return val(st, out)
+    raise OutOfSubset(f"line {line}: np.atleast_1d of {a!r}")
+
+
 @model("numpy.conj")
 def np_conj(eng, st, args, kwargs, line):
     a = args[0]
